@@ -458,11 +458,25 @@ def param_names(fnode):
     return [p.arg for p in a.posonlyargs + a.args + a.kwonlyargs]
 
 
+def _getter(v):
+    """operator.attrgetter('a') / attrgetter('a.b') / itemgetter(k) written as the expression it computes on `_item`."""
+    v = strip_cast(v)
+    if isinstance(v, ast.Call) and len(v.args) == 1 and not v.keywords and isinstance(v.args[0], ast.Constant):
+        base = (dotted(v.func) or '').split('.')[-1]
+        if base == 'attrgetter' and isinstance(v.args[0].value, str) and all(p_.isidentifier() for p_ in v.args[0].value.split('.')):
+            return '_item', ast.parse('_item.' + v.args[0].value, mode='eval').body
+        if base == 'itemgetter' and isinstance(v.args[0].value, (int, str)):
+            return '_item', ast.parse('_item[%r]' % (v.args[0].value,), mode='eval').body
+    return None
+
+
 def key_function(run, fnode, keyexpr):
     """The expression a `key=` argument computes and the name of its parameter: (param, expr) or None."""
     keyexpr = strip_cast(keyexpr)
     if isinstance(keyexpr, ast.Lambda):
         return keyexpr.args.args[0].arg, keyexpr.body
+    if _getter(keyexpr) is not None:
+        return _getter(keyexpr)
     if isinstance(keyexpr, ast.Call) and len(keyexpr.args) == 1 and isinstance(keyexpr.args[0], ast.Constant) and isinstance(keyexpr.args[0].value, int):
         fi = run.prog.func_of(keyexpr)
         tg, ext, ok = run.prog.resolve_call(keyexpr, fi)
@@ -478,6 +492,19 @@ def key_function(run, fnode, keyexpr):
             v = strip_cast(v)
             if isinstance(v, ast.Lambda):
                 return v.args.args[0].arg, v.body
+            if _getter(v) is not None:
+                return _getter(v)
+        # a module-level constant: _label = itemgetter(0) / _label = lambda e: e[0]
+        mod = getattr(fnode, '_mod', None)
+        tree = getattr(mod, 'tree', None)
+        if tree is not None:
+            for st in tree.body:
+                if isinstance(st, ast.Assign) and len(st.targets) == 1 and isinstance(st.targets[0], ast.Name) and st.targets[0].id == keyexpr.id:
+                    v = strip_cast(st.value)
+                    if isinstance(v, ast.Lambda):
+                        return v.args.args[0].arg, v.body
+                    if _getter(v) is not None:
+                        return _getter(v)
     return None
 
 
